@@ -7,8 +7,8 @@ open Mpt Mpt.Dispatch
 /-- model state and spec (monitor) state, run side by side -/
 structure DSt where
   active : Bool := false
-  m : St := St.init false
-  sp : Spec := Spec.init false
+  m : St := St.init .nofb
+  sp : Spec := Spec.init .nofb
   deriving Inhabited
 
 /-- strict decimal: digits only, no leading zero, no sign -/
@@ -53,7 +53,7 @@ def fmtLog (l : List LogE) : String :=
   if l.isEmpty then "-" else ",".intercalate (l.map fmtEntry)
 
 def isRegistering : Op → Bool
-  | .set _ | .cset _ | .clear _ => true
+  | .set _ | .cset _ | .clear _ | .tcopy _ | .setDefault _ => true
   | _ => false
 
 /-- the R section text of an outcome -/
@@ -64,17 +64,19 @@ def fmtR (op : Op) (out : Out) (fresh : Bool := true) : String :=
     | .val _, .reserve _ => s!"ok fresh={if fresh then 1 else 0}"
     | .val v, .clearAll => if v < 0 then "refused" else "ok"
     | .val v, .fini => if v < 0 then "refused" else "ok"
+    | .val v, .drop => if v < 0 then "refused" else "ok"
+    | .val v, .setError => if v < 0 then "refused" else "ok"
     | .val v, op => if isRegistering op then (if v < 0 then "refused" else "ok") else s!"ret={v}"
   s!"{v} log={fmtLog (sortBy LogE.reg out.log)}"
 
 /-- the C section: live registrations in registration order, fallback, default id -/
-def fmtC (live : List (Id × Reg)) (unknown : List Id) (fb : Option Reg) (dflt : Id) : String :=
+def fmtC (live : List (Id × Reg)) (unknown : List Id) (fb : Option Reg) (dflt : Id) (bi : Bool := false) : String :=
   let items := (sortBy (·.2) live).map (fun p => s!"{p.1.toNat}>{p.2}") ++ unknown.map (fun i => s!"{i.toNat}>?")
   let l := if items.isEmpty then "-" else ",".intercalate items
-  let f := match fb with | some r => toString r | none => "-"
+  let f := match fb with | some r => toString r | none => if bi then "builtin" else "-"
   s!"live={l} fb={f} def={dflt.toNat}"
 
-def fmtCSpec (sp : Spec) : String := fmtC sp.live [] sp.fb sp.dflt
+def fmtCSpec (sp : Spec) : String := fmtC sp.live [] sp.fb sp.dflt sp.bi
 
 def userLive (tab : Option Table) : List (Id × Reg) :=
   match tab with
@@ -85,7 +87,7 @@ def otherLive (tab : Option Table) : List Id :=
   | none => []
   | some t => (t.slots.filter (fun s => s.cmd == some .logReply)).map (·.id)
 
-def fmtCModel (m : St) : String := fmtC (userLive m.d.tab) (otherLive m.d.tab) m.d.err m.d.dflt
+def fmtCModel (m : St) : String := fmtC (userLive m.d.tab) (otherLive m.d.tab) m.d.err m.d.dflt m.d.bi
 
 def fmtSlot (s : Slot) : String :=
   match s.cmd with
@@ -96,7 +98,7 @@ def fmtSlot (s : Slot) : String :=
 def fmtI (m : St) (ret : String) (evid : Id) (raw : List LogE) : String :=
   let (n, cap, typed, sl) := match m.d.tab with
     | none => (0, 0, 0, "-")
-    | some t => (t.slots.length, t.cap, if t.typed then 1 else 0,
+    | some t => (t.slots.length, t.cap, 1,
                  if t.slots.isEmpty then "-" else ",".intercalate (t.slots.map fmtSlot))
   s!"ret={ret} evid={evid.toNat} used={n} cap={cap} typed={typed} slots={sl} raw={fmtLog raw}"
 
@@ -113,10 +115,10 @@ def candidates (sp : Spec) (op : Op) : List Out :=
   let finsOf (id : Id) : List Out := match sp.lookup id with
     | some old => [⟨.val 0, [.fin old]⟩]
     | none => []
-  let deliver (id : Id) (h : HRes) : List Out :=
+  let deliver (id : Id) (h : HRes) (msg : Option (List Byte) := none) : List Out :=
     (match sp.target id with
      | some r => [⟨.val (book sp.dflt id h).1, [.call r id]⟩]
-     | none => []) ++ refusals
+     | none => if sp.bi then [⟨.val (book sp.dflt id (builtinAnswer id msg)).1, []⟩] else []) ++ refusals
   match op with
   | .set id | .cset id => [⟨.val 0, []⟩, ⟨.val (-1), []⟩] ++ finsOf id
   | .clear id => finsOf id ++ [⟨.val (-1), []⟩]
@@ -125,7 +127,7 @@ def candidates (sp : Spec) (op : Op) : List Out :=
   | .emitId id h => deliver id h
   | .emitMsg msg h => match msg with
     | [] => refusals
-    | b :: _ => deliver b.toUInt64 h
+    | b :: _ => deliver b.toUInt64 h (some msg)
   | .emitNone h =>
     if sp.dflt = 0 then [⟨.val 0, []⟩]
     else deliver sp.dflt h ++ (match sp.fb with
@@ -136,8 +138,12 @@ def candidates (sp : Spec) (op : Op) : List Out :=
       | none => [⟨.val failDefault, []⟩]
       | some id => match sp.target id with
         | some r => [⟨.val h.val, [.call r id]⟩, ⟨.val failDefault, [.call r id]⟩]
-        | none => [⟨.val failDefault, []⟩]
+        | none => [⟨.val failDefault, []⟩, ⟨.val (builtinAnswer id (some msg)).val, []⟩]
   | .reserve _ => [⟨.null, []⟩]
+  | .drop => [⟨.val 0, sp.live.map (.fin ·.2)⟩]
+  | .tcopy _ => [⟨.val (-4), []⟩, ⟨.val 0, []⟩]
+  | .setDefault _ => [⟨.val 1, []⟩, ⟨.val (-1), []⟩]
+  | .setError => [⟨.val 0, match sp.fb with | some o => [.fin o] | none => []⟩]
 
 /-- S section: every candidate the monitor accepts, as `R text ; C text` -/
 def fmtS (sp : Spec) (op : Op) (mOut : Out) : String :=
@@ -154,7 +160,7 @@ def fmtS (sp : Spec) (op : Op) (mOut : Out) : String :=
 
 /-- spec state read off the model state (used to continue after a rejected outcome) -/
 def resync (m : St) (sp : Spec) : Spec :=
-  { sp with live := userLive m.d.tab, fb := m.d.err, dflt := m.d.dflt, next := m.next }
+  { sp with live := userLive m.d.tab, fb := m.d.err, bi := m.d.bi, dflt := m.d.dflt, next := m.next }
 
 def runOp (s : DSt) (op : Op) (evid : Id := 0) : DSt × String :=
   let (m', out) := step s.m op
@@ -200,30 +206,81 @@ def parseOp (w : List String) : Option Op :=
     pure (.hash b h)
   | ["e", "reserve", n] => (parseId n).map fun v => .reserve v.toNat
   | ["e", "fini"] => some .fini
+  | ["e", "drop"] => some .drop
+  | ["e", "tcopy", r] => (parseDec r).map .tcopy
   | _ => none
+
+def startOf (f : String) : Option Start :=
+  if f = "fb" then some .fb else if f = "nofb" then some .nofb else if f = "builtin" then some .builtin else none
+
+/-- is registration `r` held by a live table element? (operand check of `tcopy`) -/
+def holdsReg (m : St) (r : Nat) : Bool := (userLive m.d.tab).any (·.2 == r)
+
+def stepOp (s : DSt) (op : Op) : DSt × String :=
+  -- registrations are limited in the harness
+  if decide (s.m.next ≥ 4096) && (match op with | .set _ | .cset _ | .reserve _ | .setError => true | _ => false) then (s, "bad-op")
+  else
+    let out := (step s.m op).2
+    runOp s op (evidAfter op out)
 
 def stepLine (s : DSt) (w : List String) : DSt × String :=
   match w with
   | ["e", "new", f] =>
-    if f = "fb" ∨ f = "nofb" then
-      let fb := f = "fb"
-      let m := St.init fb
-      let sp := Spec.init fb
+    match startOf f with
+    | some st =>
+      let m := St.init st
+      let sp := Spec.init st
       ({ active := true, m := m, sp := sp },
        s!"R ok log=- | C {fmtCModel m} | I {fmtI m "0" 0 []} | S ok log=- ; {fmtCSpec sp}")
-    else (s, "bad-op")
+    | none => (s, "bad-op")
   | _ =>
     if !s.active then (s, "bad-op")
     else match parseOp w with
       | none => (s, "bad-op")
-      | some op =>
-        -- registrations are limited in the harness
-        if decide (s.m.next ≥ 4096) && (match op with | .set _ | .cset _ | .reserve _ => true | _ => false) then (s, "bad-op")
-        else
-          let out := (step s.m op).2
-          runOp s op (evidAfter op out)
+      | some (.tcopy r) => if holdsReg s.m r then stepOp s (.tcopy r) else (s, "bad-op")
+      | some op => stepOp s op
+
+/-- the C++ class `mpt::dispatch` (mpt++/event.cpp): its methods are the C functions on `this`, plus
+    `handler(id)`, `set_default`, `set_error` and the destructor -/
+def stepX (s : DSt) (w : List String) : DSt × String :=
+  match w with
+  | ["xe", "new", f] => stepLine s ["e", "new", f]
+  | ["xe", "set", id] => stepLine s ["e", "set", id]
+  | ["xe", "clear", id] => stepLine s ["e", "clear", id]
+  | "xe" :: "emit" :: rest => stepLine s ("e" :: "emit" :: rest)
+  | ["xe", "hash", a, b] => stepLine s ["e", "hash", a, b]
+  | ["xe", "reserve", n] => stepLine s ["e", "reserve", n]
+  | ["xe", "get", idw] =>
+    if !s.active then (s, "bad-op")
+    else match parseId idw with
+      | some id =>
+        let fmt (o : Option Nat) : String := match o with | some r => s!"found={r}" | none => "none"
+        let mr : Option Nat := (commandGet s.m.d.tab id).map (·.2.arg)
+        (s, s!"R {fmt mr} log=- | C {fmtCModel s.m} | I {fmtI s.m "0" 0 []} | S {fmt (s.sp.lookup id)} log=- ; {fmtCSpec s.sp}")
+      | none => (s, "bad-op")
+  | ["xe", "setdef", idw] =>
+    if !s.active then (s, "bad-op")
+    else match parseId idw with
+      | some id => stepOp s (.setDefault id)
+      | none => (s, "bad-op")
+  | ["xe", "seterr"] => if !s.active then (s, "bad-op") else stepOp s .setError
+  | ["xe", "del"] =>
+    if !s.active then (s, "bad-op")
+    else
+      let (m', out) := step s.m .fini
+      let sline := fmtS s.sp .fini out
+      let r := fmtR .fini out
+      -- the object is gone: only the log is shown
+      ({ active := false, m := m', sp := s.sp },
+       s!"R {r} | C gone | I raw={fmtLog out.log} | S " ++ " || ".intercalate ((sline.splitOn " || ").map fun a => (a.splitOn " ; ").headD "" ++ " ; gone"))
+  | _ => (s, "bad-op")
+
+def stepAny (s : DSt) (w : List String) : DSt × String :=
+  match w with
+  | "xe" :: _ => stepX s w
+  | _ => stepLine s w
 
 def main (_args : List String) : IO Unit := do
-  Driver.loop (← IO.getStdin) (← IO.getStdout) stepLine ({} : DSt)
+  Driver.loop (← IO.getStdin) (← IO.getStdout) stepAny ({} : DSt)
 
 end Driver.Event
